@@ -68,10 +68,32 @@ class ExprMixin:
             return V(("module", imp)), st
         if n.id in self.p.funcs:
             return V(("func", n.id)), st
+        g = self.module_literal(frame.func.module, n.id)
+        if g is not None:
+            return self.eval(g, st.set(env={}), frame, out)[0], st
         # enclosing function's locals (closures): look up the dynamic parent env is not
         # modelled; closures in this package only read `tmp`
         cl = getattr(st, "env", {}).get("<closure>")
         return V(("unknown", f"name:{n.id}")), st
+
+    @staticmethod
+    def module_literal(module, name):
+        """value node of a module-level constant table: assigned exactly once at top level, a literal
+        (dict / list / tuple / constant) built only from constants and names of functions"""
+        hits = [s_ for s_ in module.tree.body if isinstance(s_, (ast.Assign, ast.AnnAssign))
+                and any(isinstance(t, ast.Name) and t.id == name for t in (s_.targets if isinstance(s_, ast.Assign) else [s_.target]))]
+        if len(hits) != 1 or hits[0].value is None:
+            return None
+        for x in ast.walk(module.tree):
+            if x is not hits[0] and isinstance(x, (ast.Assign, ast.AugAssign, ast.AnnAssign, ast.Global)):
+                tg = x.names if isinstance(x, ast.Global) else [t.id for t in ast.walk(x) if isinstance(t, ast.Name) and isinstance(t.ctx, ast.Store)]
+                if name in tg:
+                    return None
+        v = hits[0].value
+        ok = (ast.Dict, ast.List, ast.Tuple, ast.Constant, ast.Name, ast.Load)
+        if not isinstance(v, (ast.Dict, ast.List, ast.Tuple, ast.Constant)) or not all(isinstance(x, ok) for x in ast.walk(v)):
+            return None
+        return v
 
     def ex_JoinedStr(self, n, st, frame, out):
         parts = []
@@ -651,10 +673,15 @@ class ExprMixin:
                 tf = ("tmpfile", dt, site)
                 res.add(tf)
             st = self.emit("CREATE", d, [frozenset(("tmpname", t[1], t[2]) for t in res)], n, st, frame,
-                           extra={"delete": kw.get("delete")})
+                           extra={"delete": kw.get("delete"), "mode": "w+b",
+                                  "buffering": kw.get("buffering") or (args[1] if len(args) > 1 else None)})
             return frozenset(res), st
         if d in PR.IDENTITY_PATH_FUNCS:
-            return (args[0] if args else EMPTY), st
+            # identity for the store's own addresses; on a caller-supplied path a lexical normaliser may name a
+            # different file (abspath/normpath collapse `link/..`), so the result is a derived string
+            lexical = d in ("os.path.abspath", "os.path.normpath", "os.path.realpath", "os.path.expanduser", "os.path.normcase")
+            return frozenset(("strop", d.rsplit(".", 1)[1], t) if lexical and tag(t) in ("param", "opt") else t
+                             for t in (args[0] if args else EMPTY)), st
         if d == "os.open":
             flags = ast.unparse(n.args[1]) if len(n.args) > 1 else ""
             if "O_CREAT" in flags or "O_TRUNC" in flags:
@@ -788,7 +815,8 @@ class ExprMixin:
             if kind is None:
                 self.problem(f"{self.p.loc(frame.func, n)}: open() mode {m[1]!r} not classified")
                 continue
-            st = self.emit(kind, "open", [path], n, st, frame, extra={"mode": m[1]})
+            st = self.emit(kind, "open", [path], n, st, frame,
+                           extra={"mode": m[1], "buffering": kw.get("buffering") or (args[2] if len(args) > 2 else None)})
             for p_ in path:
                 res.add(("handle", p_, m[1], site))
         return frozenset(res), st
@@ -987,6 +1015,12 @@ class ExprMixin:
                 return V(NONE), st.set(lists=ls)
             if meth in ("remove", "pop", "clear", "sort", "reverse", "insert"):
                 return V(NONE), st
+        if tg == "dictlit" and meth in ("items", "keys", "values") and not args:
+            if meth == "items":
+                return V(("tuple", tuple(V(("tuple", (V(k), vv))) for k, vv in r[1]))), st
+            if meth == "keys":
+                return V(("tuple", tuple(V(k) for k, vv in r[1]))), st
+            return V(("tuple", tuple(vv for k, vv in r[1]))), st
         if tg in ("dictlit", "dictobj", "dictzip", "item", "yaml") and meth == "get":
             v = self.getitem(V(r), args[0], st, n)
             # .get never raises; absent key -> None/default
